@@ -2,7 +2,7 @@
 //
 // Generator: import DAGs of 2-6 module files (top level, sub directories, names that differ only in letter
 // case) + main; every module declares private and public globals with printing initialisers, same-named
-// private declarations, a uniquely named public function and optionally the same-named public function 'wer';
+// private declarations, a uniquely named public function, a public and a private constant, a public Kombination with a public and a private field, a private Kombination and optionally the same-named public function 'wer';
 // imports are plain, selective (also split over two statements), directory and recursive directory imports.
 // Oracle: a model of the statement computes the set of visible names per module and the expected output
 // (initialiser trace + values + calls); one optional injected fault (use of an invisible name, selective
@@ -63,7 +63,7 @@ func relImport(fromPath, toPath string) string {
 }
 
 func publicNames(m *mod) []string {
-	ns := []string{"g_" + m.tag, "frage_" + m.tag}
+	ns := []string{"g_" + m.tag, "frage_" + m.tag, "k_" + m.tag, "Ding_" + m.tag}
 	if m.hasWer {
 		ns = append(ns, "wer")
 	}
@@ -114,7 +114,7 @@ func generate(t *rapid.T) (Case, bool) {
 	for i := len(mods) - 1; i >= 0; i-- {
 		m := mods[i]
 		reach[i] = map[int]bool{}
-		own := map[string]bool{"zustand": true, "intern": true, "melde_" + m.tag: true, "g_" + m.tag: true, "frage_" + m.tag: true, "p_" + m.tag: true}
+		own := map[string]bool{"zustand": true, "intern": true, "melde_" + m.tag: true, "g_" + m.tag: true, "frage_" + m.tag: true, "p_" + m.tag: true, "k_" + m.tag: true, "kp_" + m.tag: true, "Ding_" + m.tag: true, "Intern_" + m.tag: true}
 		if m.hasWer {
 			own["wer"] = true
 		}
@@ -280,7 +280,10 @@ func generate(t *rapid.T) (Case, bool) {
 		case k == 1 && len(direct) > 0:
 			j := rapid.SampledFrom(direct).Draw(t, "privmod")
 			fault = "use-of-private-name"
-			what := rapid.SampledFrom([]string{"zustand", "melde_" + mods[j].tag + " 1", "der interne wert"}).Draw(t, "privname")
+			what := rapid.SampledFrom([]string{"zustand", "melde_" + mods[j].tag + " 1", "der interne wert", "kp_" + mods[j].tag, "a von (ein internes ding " + mods[j].tag + ")"}).Draw(t, "privname")
+			if _, sees := main.visible["Ding_"+mods[j].tag]; sees && rapid.Bool().Draw(t, "private-field") {
+				what = "verborgen von (ein neues ding " + mods[j].tag + ")"
+			}
 			if mods[j].hasPriv && rapid.Bool().Draw(t, "p-var") {
 				what = "p_" + mods[j].tag
 			}
@@ -288,7 +291,7 @@ func generate(t *rapid.T) (Case, bool) {
 		case k == 2 && len(mods) > 1:
 			j := rapid.IntRange(1, len(mods)-1).Draw(t, "selpriv")
 			fault = "selective-import-of-private-name"
-			faultStmt = "Binde " + rapid.SampledFrom([]string{"zustand", "intern", "melde_" + mods[j].tag}).Draw(t, "pn") + " aus \"" + relImport("main", mods[j].path) + "\" ein.\n"
+			faultStmt = "Binde " + rapid.SampledFrom([]string{"zustand", "intern", "melde_" + mods[j].tag, "kp_" + mods[j].tag, "Intern_" + mods[j].tag}).Draw(t, "pn") + " aus \"" + relImport("main", mods[j].path) + "\" ein.\n"
 		case k >= 3:
 			// a cycle: some module j imports a module i that (transitively) imports j, or itself
 			var pairs [][2]int
@@ -364,6 +367,9 @@ func generate(t *rapid.T) (Case, bool) {
 		}
 		fmt.Fprintf(&sb, "\nDie Funktion intern gibt eine Zahl zurück, macht:\n\tGib %d zurück.\nUnd kann so benutzt werden:\n\t\"der interne wert\"\n\n", i*1000)
 		fmt.Fprintf(&sb, "Die öffentliche Funktion frage_%s gibt eine Zahl zurück, macht:\n\tErhöhe zustand um 1.\n\tGib zustand plus (der interne wert) zurück.\nUnd kann so benutzt werden:\n\t\"frage %s\"\n\n", m.tag, m.tag)
+		fmt.Fprintf(&sb, "Die öffentliche Konstante k_%s ist %d.\nDie Konstante kp_%s ist 5.\n\n", m.tag, 100+i, m.tag)
+		fmt.Fprintf(&sb, "Wir nennen die öffentliche Kombination aus\n\tder öffentlichen Zahl wert mit Standardwert %d,\n\tder Zahl verborgen mit Standardwert 9,\neinen Ding_%s, und erstellen sie so:\n\t\"ein neues ding %s\"\n\n", i, m.tag, m.tag)
+		fmt.Fprintf(&sb, "Wir nennen die Kombination aus\n\tder Zahl a mit Standardwert 1,\neinen Intern_%s, und erstellen sie so:\n\t\"ein internes ding %s\"\n\n", m.tag, m.tag)
 		if m.hasWer {
 			fmt.Fprintf(&sb, "Die öffentliche Funktion wer gibt einen Text zurück, macht:\n\tGib \"wer aus %s\" zurück.\nUnd kann so benutzt werden:\n\t\"wer da\"\n\n", m.tag)
 		}
@@ -424,6 +430,12 @@ func generate(t *rapid.T) (Case, bool) {
 			// two calls: the module's private state is its own and persists
 			fmt.Fprintf(&sb, "Schreibe (frage %s) auf eine Zeile.\nSchreibe (frage %s) auf eine Zeile.\n", mods[j].tag, mods[j].tag)
 			fmt.Fprintf(&out, "%d\n%d\n", 100+j+1+j*1000, 100+j+2+j*1000)
+		case strings.HasPrefix(nm, "k_"):
+			fmt.Fprintf(&sb, "Schreibe %s auf eine Zeile.\n", nm)
+			fmt.Fprintf(&out, "%d\n", 100+j)
+		case strings.HasPrefix(nm, "Ding_"):
+			fmt.Fprintf(&sb, "Der %s d_%s ist ein neues ding %s.\nSchreibe (wert von d_%s) auf eine Zeile.\n", nm, mods[j].tag, mods[j].tag, mods[j].tag)
+			fmt.Fprintf(&out, "%d\n", j)
 		case nm == "wer":
 			sb.WriteString("Schreibe (wer da) auf eine Zeile.\n")
 			fmt.Fprintf(&out, "wer aus %s\n", mods[j].tag)
